@@ -302,6 +302,24 @@ def check_case(fns, case, limits=False):
                 bad.append(("history:" + nm, f"{nm} called again after S_y *= 0.25 and K *= 0.5 IN PLACE returns another value than "
                             f"the same call on fresh copies of the current arrays (max difference "
                             f"{'n/a' if u is None or v is None or u.shape != v.shape else float(np.max(np.abs(u - v)))!r})"))
+        # results are the caller's: a matrix returned by one call still holds its values after LATER calls with other
+        # arguments of the same dimensions (no shared output buffer, no view of module state)
+        for nm, extra in (("error_covariance_matrix", ()), ("retrieval_gain_matrix", ()), ("averaging_kernel_matrix", ()),
+                          ("retrieval_noise", (ey,))):
+            try:
+                with np.errstate(all="ignore"):
+                    first = fns[nm](K.copy(), Sa.copy(), Sy.copy(), *extra)
+                    kept = np.array(first, dtype=float, copy=True)
+                    fns[nm](0.5 * K, 3.0 * Sa, 0.25 * Sy, *[2.0 * e for e in extra])
+                    for other in ("error_covariance_matrix", "retrieval_gain_matrix", "averaging_kernel_matrix"):
+                        fns[other](0.25 * K, 2.0 * Sa, 4.0 * Sy)
+                    now = np.array(first, dtype=float)
+            except Exception:  # noqa  (exceptions are reported by the laws above)
+                continue
+            if now.shape != kept.shape or not np.array_equal(now, kept, equal_nan=True):
+                bad.append(("result-aliased:" + nm, f"the array returned by {nm} changed its values when the function was called again "
+                            f"with other arguments of the same dimensions (max change "
+                            f"{'n/a' if now.shape != kept.shape else float(np.max(np.abs(now - kept)))!r})"))
         # argument types: whole-number covariances handed over as INTEGER arrays (np.diag([4, 9, 1])), K real-valued:
         # the same matrices as with the float arrays of the same values
         Si_a = np.diag(1 + (np.arange(n) * 3) % 7).astype(np.int64)
